@@ -49,7 +49,7 @@ func c04(r *hx.Run) {
 	fx.Quiet()
 	client, v := stdClient()
 	delta := v.P.MaxOperationTimeDelta
-	r.Rule = "(i) every history of <=3 operations after the create (chain-building alphabet, coordinates 2.0,2.1,3.0) that the reference (and, checked, the real processor) resolves as deactivated is extended by every 1 (all pool operations incl. forged and creates; anchored later, or unpublished with a later / earlier time stamp) and every 2 (legitimate alphabet; thorough: all) later-anchored operations: result must stay deactivated, empty, without commitments and otherwise unchanged (also when an operation of the deactivated history is supplied by the caller through WithAdditionalOperations while a later recover / create sits in the store); (ii) for each such state a real DocumentHandler with its default decorator must refuse every non-create request and leave queue and unpublished store untouched; (iii) for every history with a recover, removing every subset of updates anchored at or before the last applied recover must not change the result; (iv) every history of <=3 published / unpublished operations over updates and recovers that re-commit to an update commitment used before equals the reference. Non-trivial: distinct (base state, extension) pairs whose extension parses."
+	r.Rule = "(i) every history of <=3 operations after the create (chain-building alphabet, coordinates 2.0,2.1,3.0) that the reference (and, checked, the real processor) resolves as deactivated is extended by every 1 (all pool operations incl. forged and creates; anchored later, or unpublished with a later / earlier time stamp) and every 2 (legitimate alphabet; thorough: all) later-anchored operations: result must stay deactivated, empty, without commitments and otherwise unchanged (also when an operation of the deactivated history is supplied by the caller through WithAdditionalOperations while a later recover / create sits in the store); (ii) for each such state a real DocumentHandler with its default decorator must refuse every non-create request and leave queue and unpublished store untouched; (iii) for every history with a recover, removing every subset of updates anchored at or before the last applied recover must not change the result; (v) every history of <=2 operations after a create whose document also carries an alias and a foreign member equals the reference (a recover leaves nothing of them); (iv) every history of <=3 published / unpublished operations over updates and recovers that re-commit to an update commitment used before equals the reference. Non-trivial: distinct (base state, extension) pairs whose extension parses."
 	pool := fx.NewPool(fx.Ed25519, fx.SHA256, "ok")
 	all := opIDs(pool, func(*fx.PoolOp) bool { return true })
 	legit := opIDs(pool, isLegit)
@@ -121,6 +121,16 @@ func c04(r *hx.Run) {
 		e3 := &histEnum{pool: pool, alpha: []string{"U01", "U12", "R0>u0", "R0>u1", "R01", "V01", "D0"}, coords: wideGrid[1:], depth: 3, pubModes: "p", fixed: fixedC}
 		e3.run(r, func(placed []fx.Placed) {
 			compareWithModel(r, "recommit-wide", client, pool, placed, delta)
+		})
+	}
+	// (v) "solely the recover's own content": the created document also carries an alias and a foreign member (which a recover's
+	// patches, applied to an empty document, do not name); every history of <=2 operations after that create equals the reference
+	{
+		pa := fx.NewPool(fx.Ed25519, fx.SHA256, "alias")
+		e4 := &histEnum{pool: pa, alpha: []string{"R01", "R12", "R01~a", "R01~h", "U01", "U01a", "V01", "D0"}, coords: []Coord{{2, 0}, {2, 1}, {3, 0}}, depth: 2, pubModes: "pu",
+			fixed: []fx.Placed{{Op: pa.Get("C"), Time: 1, Num: 0, Published: true}}}
+		e4.run(r, func(placed []fx.Placed) {
+			compareWithModel(r, "alias-create", client, pa, placed, delta)
 		})
 	}
 	r.Extra["deactivated_base_states"] = len(deactStates)
